@@ -7,6 +7,9 @@ violation): the App attributes `_sinks`, `_static_routes`,
 `_META_METHODS`; the functions `App._get_responder`,
 `routing.util.map_http_methods`, `routing.util.set_default_responders`,
 `responders.create_default_options`, `responders.create_method_not_allowed`.
+R10: every default responder (the targets of App._default_responder_* of both App classes, the nested defs the two factories
+return) is (req, resp, **kwargs).  R11: the 404 / 400 defaults never return, let only their own error class escape (E5
+summary over callees), WSGI and ASGI twins alike.
 Roles inside those functions are found by def-use from contract positions
 (return-tuple positions of `_get_responder`, parameter positions, the 3-tuple
 shape `(matcher, object, is_sink)` of the fallback table).
@@ -236,22 +239,66 @@ def _class_attr_target(p, cqual: str, attr: str) -> Optional[str]:
     return p.resolve_expr(c.module, val)
 
 
+def _escaping_classes(p, E, g: Func) -> Dict[str, list]:
+    """Exception classes that can leave g (E5 summary closed over callees),
+    with two readings the summary does not make itself: `x = Cls(..); raise x`
+    raises Cls, and what the constructor of a raised exception class might
+    raise internally is not an outcome of g (the summary already leaves it
+    out for `raise Cls(..)`)."""
+    summ = E.summary(g)
+    ctor_locs = set()
+    for c in walk_no_nested(g.node):
+        if isinstance(c, ast.Call):
+            t = p.callee(g, c)
+            if isinstance(t, Class) and p.is_subclass(t.qual, 'builtins.BaseException') is True:
+                ctor_locs.add(g.loc(c))
+    out: Dict[str, list] = {}
+    for q, chain in summ.items():
+        if q.startswith('?'):
+            name = q[1:]
+            vals = [n.value for n in walk_no_nested(g.node) if isinstance(n, (ast.Assign, ast.AnnAssign)) and n.value is not None
+                    and any(isinstance(t, ast.Name) and t.id == name for t in (n.targets if isinstance(n, ast.Assign) else [n.target]))]
+            classes = [p.callee(g, v) if isinstance(v, ast.Call) else None for v in vals]
+            if not vals or not all(isinstance(t, Class) for t in classes):
+                raise UnknownIdiom('%s: `raise %s`: what it raises is not read' % (g.qual, name))
+            for t in classes:
+                out.setdefault(t.qual, list(chain))
+        elif chain and chain[0][0] in ctor_locs and chain[0][1].startswith('call '):
+            continue
+        else:
+            out[q] = list(chain)
+    return out
+
+
+def _no_return_nodes(p, g: Func, cfg: CFG, _depth: int = 0) -> Set[int]:
+    """CFG nodes that call a function of the analysed tree which itself never
+    returns normally (e.g. the ASGI twin delegating to the WSGI responder)."""
+    out: Set[int] = set()
+    if _depth > 3:
+        return out
+    for n in cfg.live_nodes():
+        for c in n.calls():
+            t = p.callee(g, c)
+            if isinstance(t, Func) and t is not g:
+                tcfg = cfg_of(t, p)
+                if tcfg.exit not in flow.reachable(tcfg, [tcfg.entry], avoid_nodes=_no_return_nodes(p, t, tcfg, _depth + 1)):
+                    out.add(n.id)
+    return out
+
+
 def _always_raises(run, fq: str, base: str) -> Tuple[bool, Optional[str]]:
+    from ..escape import Escape
     p = run.project
     g = p.func(fq)
     cfg = cfg_of(g, p)
     run.use_cfg(cfg)
-    if cfg.exit in flow.reachable(cfg, [cfg.entry]):
+    if cfg.exit in flow.reachable(cfg, [cfg.entry], avoid_nodes=_no_return_nodes(p, g, cfg)):
         return False, 'can return normally'
-    ok = False
-    for n in cfg.live_nodes():
-        if n.kind == 'stmt' and isinstance(n.ast, ast.Raise) and n.ast.exc is not None:
-            e = n.ast.exc.func if isinstance(n.ast.exc, ast.Call) else n.ast.exc
-            q = p.resolve_expr(g.module, e, g)
-            if not q or p.is_subclass(q, base) is not True:
-                return False, 'raises %s' % (q or short(e))
-            ok = True
-    return ok, None if ok else 'no raise statement'
+    classes = _escaping_classes(p, Escape(p), g)
+    for q in sorted(classes):
+        if p.is_subclass(q, base) is not True:
+            return False, 'raises %s' % q
+    return bool(classes), None if classes else 'no raise statement'
 
 
 def r1_route_masks(run):
@@ -574,7 +621,6 @@ class RebuildEval:
         env: Dict[str, object] = {}
         self_name = params[0] if (f.cls is not None and params and 'staticmethod' not in f.decorators) else None
         rest = params[1:] if self_name else params
-        n_def = len(a.defaults)
         if len(args) > len(rest) or (depth > 0 and len(args) < len(rest) - n_def):
             raise UnknownIdiom('%s: called with %d argument(s) on the table-rebuild path' % (f.qual, len(args)))
         for i, name in enumerate(rest):
@@ -2470,6 +2516,127 @@ def r9_flavour_flag(run):
         raise AnchorError('fewer than three framework call sites of the default-responder helpers resolved (%d)' % n_sites)
 
 
+# ---------------------------------------------------------------------------
+# R10 / R11 the default responders
+# ---------------------------------------------------------------------------
+
+FACTORIES = (RESP + '.create_method_not_allowed', RESP + '.create_default_options')
+
+
+def _default_responders(p) -> List[Tuple[str, Func, str]]:
+    """(role, def, flavour) of every default responder, found from its use:
+    the targets of App._default_responder_* of both App classes, and every
+    nested def that one of the two responder factories returns."""
+    out: List[Tuple[str, Func, str]] = []
+    for cq, flavour in ((APP, 'WSGI'), (ASGI_APP, 'ASGI')):
+        p.cls(cq)
+        for attr in (NOT_FOUND, BAD_REQ):
+            tq = _class_attr_target(p, cq, attr)
+            if not tq or tq not in p.funcs:
+                raise AnchorError('%s.%s does not resolve to a function' % (cq, attr))
+            out.append((attr, p.func(tq), flavour))
+    for fq in FACTORIES:
+        fac = p.func(fq)
+        returned = []
+        for n in walk_no_nested(fac.node):
+            if isinstance(n, ast.Return) and n.value is not None:
+                if not (isinstance(n.value, ast.Name) and n.value.id in fac.nested):
+                    raise UnknownIdiom('%s: returns %s, not one of its nested defs' % (fq, short(n.value, 60)))
+                returned.append(fac.nested[n.value.id])
+        if len(returned) < 2:
+            raise AnchorError('%s: expected a WSGI and an ASGI closure to be returned' % fq)
+        for g in returned:
+            out.append((fac.node.name, g, 'ASGI' if g.is_async else 'WSGI'))
+    return out
+
+
+def r10_default_responder_signature(run):
+    """Both __call__ implementations invoke whatever _get_responder selected
+    as `responder(req, resp, **params)` (R5), where params are the matched
+    route's fields (any identifier the application chose) plus whatever
+    process_resource middleware added.  So every default responder -- the
+    404 / 400 functions and the closures of the two factories, WSGI and ASGI
+    -- takes exactly two positional parameters and **kwargs: no further named
+    parameter that a field could bind, and the catch-all must be there.
+    W: `def options_responder(req, resp, allowed=allowed, **kwargs)`: route
+    /acl/{allowed}, OPTIONS /acl/v17 -> `Allow: v17`;  `async def
+    bad_request_async(req, resp)`: route /items/{item_id}, method BREW ->
+    TypeError -> 500 instead of 400."""
+    p = run.project
+    seen = set()
+    for role, g, flavour in _default_responders(p):
+        if g.qual in seen:
+            continue
+        seen.add(g.qual)
+        a = g.node.args
+        positional = [x.arg for x in a.posonlyargs + a.args]
+        named_extra = positional[2:] + [x.arg for x in a.kwonlyargs]
+        sig = '(%s)' % ', '.join(positional + (['*' + a.vararg.arg] if a.vararg else []) + [x.arg for x in a.kwonlyargs]
+                                 + (['**' + a.kwarg.arg] if a.kwarg else []))
+        run.check(not named_extra and (len(positional) == 2 or (a.vararg is not None and len(positional) < 2)),
+                  '%s default responder %s (%s) has exactly the two positional parameters (req, resp) besides its catch-all: every other named '
+                  'parameter can be bound by a route field of that name' % (flavour, g.node.name, role), g,
+                  'def %s%s [named parameters]' % (g.node.name, sig), where=g.loc(),
+                  witness=['parameter %r is bound by a route field named %r (responder(req, resp, **params))' % (x, x) for x in named_extra] or None,
+                  runtime_witness='route /acl/{allowed} + the automatic OPTIONS responder with a parameter `allowed`: OPTIONS /acl/v17 answers '
+                                  '`Allow: v17`')
+        run.check(a.kwarg is not None, '%s default responder %s (%s) accepts arbitrary keyword arguments (**kwargs): it is called with the '
+                  'matched route\'s fields' % (flavour, g.node.name, role), g, 'def %s%s [catch-all]' % (g.node.name, sig), where=g.loc(),
+                  runtime_witness='route /items/{item_id}, request method BREW: responder(req, resp, item_id=...) raises TypeError -> 500 '
+                                  'instead of 400 (405 / OPTIONS / 404 likewise)')
+
+
+def r11_default_responders_unconditional(run):
+    """The 404 and 400 default responders decide nothing: whatever the
+    request, `_default_responder_path_not_found` ends in HTTPRouteNotFound
+    and `_default_responder_bad_request` in HTTPBadRequest -- the ONLY
+    exception class that can leave them (E5 summary closed over the callees),
+    no normal return, no call whose outcome is unknown; the WSGI and ASGI
+    twins raise the same class.  W: path_not_found_async first awaits
+    bad_request_async for methods outside COMBINED_METHODS: `BREW /nowhere`
+    is answered 400 by the ASGI app and 404 by the WSGI app."""
+    from ..escape import Escape
+    p = run.project
+    E = Escape(p)
+    want = {NOT_FOUND: 'falcon.errors.HTTPNotFound', BAD_REQ: 'falcon.errors.HTTPBadRequest'}
+    got: Dict[str, Dict[str, Tuple[Func, FrozenSet[str]]]] = {}
+    for role, g, flavour in _default_responders(p):
+        if role not in want:
+            continue
+        cfg = cfg_of(g, p)
+        run.use_cfg(cfg)
+        summ = _escaping_classes(p, E, g)
+        # every call of the body is either the construction of the raised exception or resolved (and so part of the summary)
+        raised_ctor = {id(n.ast.exc) for n in cfg.live_nodes() if n.kind == 'stmt' and isinstance(n.ast, ast.Raise) and n.ast.exc is not None}
+        for n in cfg.live_nodes():
+            for c in n.calls():
+                if id(c) in raised_ctor:
+                    continue
+                t = p.callee(g, c)
+                if not isinstance(t, (Func, Class)):
+                    raise UnknownIdiom('%s: call %s is not resolved: what it can raise is unknown' % (g.qual, short(c, 60)))
+        dead_ends = _no_return_nodes(p, g, cfg)
+        returns = cfg.exit in flow.reachable(cfg, [cfg.entry], avoid_nodes=dead_ends)
+        path = flow.find_path(cfg, [cfg.entry], [cfg.exit], avoid_nodes=dead_ends) if returns else None
+        run.check(not returns, '%s %s never returns normally' % (flavour, role), g, '%s [returns]' % g.node.name, where=g.loc(),
+                  witness=flow.describe_path(cfg, path) if path else None,
+                  runtime_witness='a request that matched nothing is answered 200 with an empty body')
+        others = sorted(q for q in summ if p.is_subclass(q, want[role]) is not True)
+        mine = frozenset(q for q in summ if p.is_subclass(q, want[role]) is True)
+        run.check(bool(mine) and not others, '%s %s raises %s on every request: no other exception class can leave it' % (
+            flavour, role, want[role].rsplit('.', 1)[1]), g, '%s [raises %s]' % (g.node.name, ', '.join(sorted(x.rsplit('.', 1)[1] for x in summ)) or 'nothing'),
+            where=g.loc(), witness=['%s: %s' % (q, ' <- '.join('%s %s' % (w, t) for (w, t) in summ[q][:3])) for q in others] or None,
+            runtime_witness='BREW /nowhere (no route, sink or static route matches): 400 instead of 404 from the ASGI app')
+        got.setdefault(role, {})[flavour] = (g, frozenset(summ))
+    for role, by in sorted(got.items()):
+        if set(by) != {'WSGI', 'ASGI'}:
+            raise AnchorError('%s: WSGI and ASGI default responder not both found' % role)
+        (gw, sw), (ga, sa_) = by['WSGI'], by['ASGI']
+        run.check(sw == sa_, 'the WSGI and ASGI %s raise the same exception classes' % role, ga,
+                  '%s / %s [raised classes]' % (gw.node.name, ga.node.name), where=ga.loc(),
+                  witness=['%s: %s' % (gw.node.name, sorted(sw)), '%s: %s' % (ga.node.name, sorted(sa_))] if sw != sa_ else None)
+
+
 def check(run):
     run.assume('router.find() returns None or a tuple whose first component is the resource (None for legacy routers that found nothing)')
     run.assume('list.insert(0, x) / append / + / tuple() / reversed() / .reverse() / slicing have their standard ordering semantics; the rebuild of the combined '
@@ -2492,3 +2659,5 @@ def check(run):
     run.rule('R8', _c01.r10_finder_invalidated, 'every accepted add_route invalidates or rebuilds the compiled finder, so a newly added route masks the '
              'fallbacks from its first request on (shared with C01 R10)', floor=3)
     run.rule('R9', r9_flavour_flag, 'the flavour flag of set_default_responders / the responder factories defaults to the WSGI flavour and every framework call site passes it', floor=6)
+    run.rule('R10', r10_default_responder_signature, 'every default responder takes (req, resp, **kwargs): no named parameter a route field could bind, and the catch-all is there', floor=16)
+    run.rule('R11', r11_default_responders_unconditional, 'the 404 / 400 default responders raise their error on every request (no other class can leave them), WSGI and ASGI alike', floor=10)
